@@ -124,6 +124,21 @@ PROPS = {
         "rule": "cases = recursive grammar x nesting depth 0..N+3 x N in 0..3 (depth), byte-limited rule kind (greedy, look-ahead, "
                 "failing, throwing, ...) x start offset x N (bytes), each x configuration; non-trivial = invocations compared with Den",
     },
+    "C10": {
+        "families": ["obs_codecs"],
+        "must_count": ["cases"],
+        "nontrivial_key": "cases",
+        "level": "declarative accept sets in TLA+ (ASCII classes as documented, RFC 5234 core rules, Unicode Table 3-7 for UTF-8, "
+                 "surrogate rules for UTF-16, scalar values for UTF-32, endian-adjusted masked values for uintN, ASCII-only folding "
+                 "for istring); TLC judges every recorded peek / rule run pointwise, and the natively aggregated accept sets (all "
+                 "three- and four-byte UTF-8 sequences per lead byte; in thorough all 2^32 UTF-32 units) as set equalities",
+        "rule": "cases = rule or peek function x input: all bytes per class rule; all 1-byte and boundary-lead 2-byte sequences, the "
+                "product of boundary bytes to length 4 and seeded samples for UTF-8; boundary unit pairs and strided single units "
+                "for UTF-16; boundary +-2 and random units for UTF-32; exact / off-by-one / swapped / truncated encodings for "
+                "8..64-bit binary rules; every byte at every pattern position for istring; every record is judged",
+        "note": "template arguments (characters, masks, values) are compile-time: boundary-structured samples only; the native "
+                "aggregator for the large spaces is trusted code cross-checked by raw sampled records",
+    },
     "C19": {
         "families": ["obs_lines"],
         "must_count": ["cases"],
